@@ -64,6 +64,10 @@ const char *KNOWN_AMR_LAST = "amr_absorbed_in_last_cell";
 // unrefined block the neighbour across the periodic face is the cell itself;
 // no periodic correction is applied and the loop never advances (endless loop)
 const char *KNOWN_AMR_SELF = "amr_periodic_single_block";
+// PointLocations::get_closest_neighbour: the bucket index (x-anchor)/side of a
+// query position just below the upper boundary rounds up to the number of
+// buckets: out-of-bounds read of the bucket grid
+const char *KNOWN_PL_UP = "pointloc_index_rounds_up";
 
 // ------------------------------------------------------------------ utilities
 uint64_t mix64(uint64_t x) {
@@ -228,70 +232,62 @@ struct Ray {
 // images, clipped to [0,tmax]; closed form slab intersections
 std::vector<Seg> ray_segments(const std::vector<BCell> &cells, const Geo &g,
                               const Ray &r, LD tmax) {
-  int smin[3] = {0, 0, 0}, smax[3] = {0, 0, 0};
+  // the periodic images pierced by the ray: between two consecutive crossings
+  // of periodic faces the image shift is constant
+  std::vector<LD> cross;
+  cross.push_back(0.L);
+  cross.push_back(tmax);
   for (int i = 0; i < 3; ++i) {
-    if (!g.per[i])
+    if (!g.per[i] || r.d[i] == 0.)
       continue;
     const LD x0 = r.p[i], x1 = (LD)r.p[i] + tmax * (LD)r.d[i];
     const LD lo = std::min(x0, x1), hi = std::max(x0, x1);
-    smin[i] = (int)std::floor((double)((lo - g.a[i]) / g.L[i])) - 1;
-    smax[i] = (int)std::floor((double)((hi - g.a[i]) / g.L[i])) + 1;
+    const long k0 = (long)std::floor((double)((lo - g.a[i]) / g.L[i])) - 1;
+    const long k1 = (long)std::floor((double)((hi - g.a[i]) / g.L[i])) + 1;
+    if (k1 - k0 > 200000)
+      return std::vector<Seg>(); // (excluded by the generators)
+    for (long k = k0; k <= k1; ++k) {
+      const LD t = ((LD)g.a[i] + (LD)k * (LD)g.L[i] - (LD)r.p[i]) / (LD)r.d[i];
+      if (t > 0.L && t < tmax)
+        cross.push_back(t);
+    }
   }
+  std::sort(cross.begin(), cross.end());
   std::vector<Seg> out;
-  for (int sx = smin[0]; sx <= smax[0]; ++sx)
-    for (int sy = smin[1]; sy <= smax[1]; ++sy)
-      for (int sz = smin[2]; sz <= smax[2]; ++sz) {
-        const int s[3] = {sx, sy, sz};
-        {
-          // quick reject: does the ray touch this image of the whole box?
-          LD b0 = 0.L, b1 = tmax;
-          bool miss = false;
-          for (int i = 0; i < 3 && !miss; ++i) {
-            const LD lo = (LD)g.a[i] + (LD)s[i] * (LD)g.L[i];
-            const LD hi = lo + (LD)g.L[i];
-            const LD pad = 1e-9L * (LD)g.L[i];
-            if (r.d[i] == 0.) {
-              if ((LD)r.p[i] < lo - pad || (LD)r.p[i] > hi + pad)
-                miss = true;
-            } else {
-              LD ta = (lo - pad - (LD)r.p[i]) / (LD)r.d[i];
-              LD tb = (hi + pad - (LD)r.p[i]) / (LD)r.d[i];
-              if (ta > tb)
-                std::swap(ta, tb);
-              b0 = std::max(b0, ta);
-              b1 = std::min(b1, tb);
-              if (b1 < b0)
-                miss = true;
-            }
-          }
-          if (miss)
-            continue;
-        }
-        for (size_t ic = 0; ic < cells.size(); ++ic) {
-          const BCell &c = cells[ic];
-          LD t0 = 0.L, t1 = tmax;
-          bool empty = false;
-          for (int i = 0; i < 3 && !empty; ++i) {
-            const LD lo = c.lo[i] + (LD)s[i] * (LD)g.L[i];
-            const LD hi = c.hi[i] + (LD)s[i] * (LD)g.L[i];
-            if (r.d[i] == 0.) {
-              if (!((LD)r.p[i] >= lo && (LD)r.p[i] < hi))
-                empty = true;
-            } else {
-              LD ta = (lo - (LD)r.p[i]) / (LD)r.d[i];
-              LD tb = (hi - (LD)r.p[i]) / (LD)r.d[i];
-              if (ta > tb)
-                std::swap(ta, tb);
-              t0 = std::max(t0, ta);
-              t1 = std::min(t1, tb);
-              if (!(t1 > t0))
-                empty = true;
-            }
-          }
-          if (!empty && t1 > t0)
-            out.push_back(Seg{t0, t1, (int)ic});
+  for (size_t ci = 0; ci + 1 < cross.size(); ++ci) {
+    const LD ta0 = cross[ci], tb0 = cross[ci + 1];
+    if (!(tb0 > ta0))
+      continue;
+    const LD tm = 0.5L * (ta0 + tb0);
+    LD s[3] = {0.L, 0.L, 0.L};
+    for (int i = 0; i < 3; ++i)
+      if (g.per[i])
+        s[i] = std::floor(((LD)r.p[i] + tm * (LD)r.d[i] - (LD)g.a[i]) / (LD)g.L[i]);
+    for (size_t ic = 0; ic < cells.size(); ++ic) {
+      const BCell &c = cells[ic];
+      LD t0 = ta0, t1 = tb0;
+      bool empty = false;
+      for (int i = 0; i < 3 && !empty; ++i) {
+        const LD lo = c.lo[i] + s[i] * (LD)g.L[i];
+        const LD hi = c.hi[i] + s[i] * (LD)g.L[i];
+        if (r.d[i] == 0.) {
+          if (!((LD)r.p[i] >= lo && (LD)r.p[i] < hi))
+            empty = true;
+        } else {
+          LD ta = (lo - (LD)r.p[i]) / (LD)r.d[i];
+          LD tb = (hi - (LD)r.p[i]) / (LD)r.d[i];
+          if (ta > tb)
+            std::swap(ta, tb);
+          t0 = std::max(t0, ta);
+          t1 = std::min(t1, tb);
+          if (!(t1 > t0))
+            empty = true;
         }
       }
+      if (!empty && t1 > t0)
+        out.push_back(Seg{t0, t1, (int)ic});
+    }
+  }
   std::sort(out.begin(), out.end(), [](const Seg &x, const Seg &y) {
     return x.t0 < y.t0 || (x.t0 == y.t0 && x.t1 < y.t1);
   });
@@ -338,6 +334,9 @@ RayExpect ray_expect(const std::vector<BCell> &cells, const Geo &g,
   RayExpect e;
   e.l_exit = ray_exit(g, r);
   LD tmax = std::min(e.l_exit, 4.L * (LD)g.diag());
+  for (int i = 0; i < 3; ++i)
+    if (g.per[i] && r.d[i] != 0.)
+      tmax = std::min(tmax, (LD)(12. * g.L[i] / std::abs(r.d[i])));
   for (int round = 0; round < 3; ++round) {
     const std::vector<Seg> segs = ray_segments(cells, g, r, tmax);
     e.path.assign(cells.size(), 0.L);
@@ -1386,12 +1385,17 @@ void gen_rays(VCase &c, const Geo &g, const std::vector<BCell> &cells, int nray,
       const LD lexit = ray_exit(g, r);
       // "no exit": none at all, or (grazing direction through periodic
       // dimensions) only after a huge number of wraps
-      const bool noexit = !(lexit <= (LD)(3. * g.diag()));
+      // ... or after more than ~40 box crossings of a periodic dimension
+      LD wrapbound = 3. * g.diag();
+      for (int i = 0; i < 3; ++i)
+        if (g.per[i] && r.d[i] != 0.)
+          wrapbound = std::min(wrapbound, (LD)(40. * g.L[i] / std::abs(r.d[i])));
+      const bool noexit = !(lexit <= wrapbound);
       LD ltarget;
       mode = vr::weighted({6, 3, 2});
       if (noexit && mode == 1)
         mode = 0;
-      const LD lref = noexit ? (LD)(3. * g.diag()) : lexit;
+      const LD lref = noexit ? wrapbound * 0.2L : lexit;
       if (mode == 0)
         ltarget = lref * (LD)vr::uni();
       else if (mode == 1)
@@ -1994,8 +1998,11 @@ VResult o_amr_ray(const VCase &c) {
       tws.push_back(0.L);
       // (window: up to where the optical depth is reached for certain)
       const LD lwin = std::min(l_of_tau(e.segs, s.cells, (LD)ray.tau * (1.L + 1e-9L)), e.l_exit);
+      // (a ray inside a wall plane may run through either adjacent cell, with
+      // other opacities than the oracle assumes: no window then)
+      const bool tie_ray = ray_in_wall_plane(s.cells, ray, 1e-9L * (LD)g.diag());
       for (const Seg &A : e.segs)
-        if (A.t1 <= lwin + tw)
+        if (tie_ray || A.t1 <= lwin + 1e-6L * (LD)g.diag())
           tws.push_back(A.t1);
       for (const LD t : tws) {
         bool onface = false;
@@ -2008,33 +2015,70 @@ VResult o_amr_ray(const VCase &c) {
         }
         if (!onface)
           continue;
-        int before = 99, after = -1;
-        for (const Seg &B : e.segs) {
-          if (std::abs(B.t1 - t) <= tw)
-            before = std::min(before, s.M.nodes[s.lv[B.cell]].level);
-          if (std::abs(B.t0 - t) <= tw)
-            after = std::max(after, s.M.nodes[s.lv[B.cell]].level);
-        }
-        if (t == 0.L) // the leaf that contains the start position
+        // levels of all leaves that touch the crossing point (on either side of
+        // every periodic face; several faces may be crossed at the same time
+        // and a ray inside a wall plane may be in either adjacent cell)
+        {
+          int lmin = 99, lmax = -1;
           for (size_t j = 0; j < N; ++j) {
             bool in = true;
-            for (int i = 0; i < 3; ++i)
-              in &= (LD)ray.p[i] >= s.cells[j].lo[i] - tw && (LD)ray.p[i] <= s.cells[j].hi[i] + tw;
-            if (in)
-              before = std::min(before, s.M.nodes[s.lv[j]].level);
+            for (int d2 = 0; d2 < 3 && in; ++d2) {
+              LD X = (LD)ray.p[d2] + t * (LD)ray.d[d2];
+              if (g.per[d2])
+                X -= std::floor((X - (LD)g.a[d2]) / (LD)g.L[d2]) * (LD)g.L[d2];
+              const LD w = tw + 1e-9L * (LD)g.L[d2];
+              bool ind = X >= s.cells[j].lo[d2] - w && X <= s.cells[j].hi[d2] + w;
+              if (g.per[d2]) {
+                ind |= X + (LD)g.L[d2] >= s.cells[j].lo[d2] - w && X + (LD)g.L[d2] <= s.cells[j].hi[d2] + w;
+                ind |= X - (LD)g.L[d2] >= s.cells[j].lo[d2] - w && X - (LD)g.L[d2] <= s.cells[j].hi[d2] + w;
+              }
+              in = ind;
+            }
+            if (in) {
+              lmin = std::min(lmin, s.M.nodes[s.lv[j]].level);
+              lmax = std::max(lmax, s.M.nodes[s.lv[j]].level);
+            }
           }
-        if (after > before && known.empty())
-          known = KNOWN_AMR_WRAP;
-        // the cell before the crossing spans the whole periodic dimension
+          if (lmax > lmin && known.empty())
+            known = KNOWN_AMR_WRAP;
+        }
+        // (any unrefined block touching the crossing point: several faces may be
+        // crossed at the same time, and a ray inside a wall plane may be in
+        // either of the adjacent cells)
         for (int i = 0; i < 3; ++i) {
-          if (!g.per[i] || ray.d[i] == 0. || s.nb[i] != 1 || before != 0)
+          if (!g.per[i] || ray.d[i] == 0. || s.nb[i] != 1)
             continue;
           const LD q = ((LD)ray.p[i] + t * (LD)ray.d[i] - (LD)g.a[i]) / (LD)g.L[i];
-          if (std::abs(q - std::round(q)) < 1e-9L)
-            known = KNOWN_AMR_SELF;
+          if (std::abs(q - std::round(q)) >= 1e-9L)
+            continue;
+          LD X[3];
+          for (int j = 0; j < 3; ++j) {
+            X[j] = (LD)ray.p[j] + t * (LD)ray.d[j];
+            if (g.per[j])
+              X[j] -= std::floor((X[j] - (LD)g.a[j]) / (LD)g.L[j]) * (LD)g.L[j];
+          }
+          for (size_t j = 0; j < N; ++j) {
+            if (s.M.nodes[s.lv[j]].level != 0)
+              continue;
+            bool in = true;
+            for (int d2 = 0; d2 < 3; ++d2) {
+              if (d2 == i)
+                continue; // spans the whole dimension
+              const LD w = tw + 1e-9L * (LD)g.L[d2];
+              bool ind = X[d2] >= s.cells[j].lo[d2] - w && X[d2] <= s.cells[j].hi[d2] + w;
+              // the other side of a periodic face
+              if (g.per[d2] && (X[d2] - (LD)g.a[d2] <= w) && s.cells[j].hi[d2] >= (LD)g.a[d2] + (LD)g.L[d2] - w)
+                ind = true;
+              in &= ind;
+            }
+            if (in)
+              known = KNOWN_AMR_SELF;
+          }
         }
       }
     }
+    if (getenv("C16_DEBUG"))
+      fprintf(stderr, "ray %d: matcher says '%s' (l_abs %.12Lg l_exit %.12Lg nseg %zu)\n", k, known.c_str(), e.l_abs, e.l_exit, e.segs.size());
     if (!known.empty() && !probe_known && open_known.count(known)) {
       r.label("ray-in-open-known-class-skipped");
       continue;
@@ -2076,11 +2120,26 @@ VResult o_amr_ray(const VCase &c) {
         if (!g.per[i] && (std::abs(xe0[i] - g.a[i]) <= 1e-9 * g.L[i] ||
                           std::abs(xe0[i] - (g.a[i] + g.L[i])) <= 1e-9 * g.L[i]))
           onface = true;
-      if (!onface && std::abs(stau - (LD)ray.tau) <= 1e-9L * (LD)ray.tau)
+      LD kmx = 0.L;
+      for (const BCell &bc : s.cells)
+        kmx = std::max(kmx, (LD)bc.kappa);
+      const LD tolp = 64. * EPS * (g.scale() + (double)std::min(e.l_end, (LD)1e300)) *
+                      (double)(e.nseg + 8) / dmin_of(ray);
+      if (!onface && std::abs(stau - (LD)ray.tau) <= 1e-9L * (LD)ray.tau + tolp * kmx)
         known = KNOWN_AMR_LAST;
     }
     if (getenv("C16_DEBUG")) {
       fprintf(stderr, "ray %d: l_abs %.12Lg l_exit %.12Lg absorbed %d known '%s'\n", k, e.l_abs, e.l_exit, (int)absorbed, known.c_str());
+      for (size_t i = 0; i < N; ++i) {
+        const double dd = DensityGrid::iterator(i, grid).get_mean_intensity(ION_H_n);
+        const BCell &bc = s.cells[leaf_of_index[i]];
+        if (dd != 0.)
+          fprintf(stderr, "  deposit %g in leaf %d level %d box [%Lg,%Lg]x[%Lg,%Lg]x[%Lg,%Lg] kappa %g\n", dd,
+                  leaf_of_index[i], s.M.nodes[s.lv[leaf_of_index[i]]].level, bc.lo[0], bc.hi[0], bc.lo[1],
+                  bc.hi[1], bc.lo[2], bc.hi[2], bc.kappa);
+      }
+      const Vec xq = ph.get_position();
+      fprintf(stderr, "  final position %.17g %.17g %.17g\n", xq[0], xq[1], xq[2]);
       for (const Seg &sg : e.segs)
         fprintf(stderr, "  seg [%.12Lg, %.12Lg] cell %d level %d kappa %g dep %g\n", sg.t0, sg.t1, sg.cell,
                 s.M.nodes[s.lv[sg.cell]].level, s.cells[sg.cell].kappa,
@@ -2137,6 +2196,411 @@ VResult o_amr_ray(const VCase &c) {
   return r;
 }
 
+
+// ---------------------------------------------------------------------------
+//            search structures: Octree, PointLocations, MortonKeyGenerator
+// ---------------------------------------------------------------------------
+// distinct points by construction: x is stratified (one point per stratum)
+void gen_points(VCase &c, const Geo &g, int N, bool allow_cluster) {
+  std::vector<double> P;
+  const int cls = allow_cluster ? vr::weighted({5, 3, 2}) : 0;
+  // 0 uniform, 1 one tight cluster + uniform rest, 2 all in a tight cluster
+  const double cw = std::pow(10., -(double)vr::irange(2, 7));
+  double cc[3];
+  for (int i = 0; i < 3; ++i)
+    cc[i] = vr::uni(0.05, 0.9);
+  for (int j = 0; j < N; ++j) {
+    const bool inc = cls == 2 || (cls == 1 && j % 2 == 0);
+    for (int i = 0; i < 3; ++i) {
+      double f;
+      if (i == 0)
+        f = ((double)j + 0.1 + 0.8 * vr::uni()) / (double)N;
+      else
+        f = ((double)((j * 7 + 3 * i) % N) + 0.1 + 0.8 * vr::uni()) / (double)N;
+      if (inc)
+        f = cc[i] + cw * f;
+      P.push_back(clamp_half_open(g, i, g.a[i] + f * g.L[i]));
+    }
+  }
+  c.D("points", P);
+  c.S("pointclass", cls == 0 ? "points-uniform" : (cls == 1 ? "points-half-clustered" : "points-clustered"));
+}
+
+std::vector<Vec> points_of(const VCase &c) {
+  const auto &P = c.dv("points");
+  std::vector<Vec> v;
+  for (size_t j = 0; j + 2 < P.size(); j += 3)
+    v.push_back(Vec(P[j], P[j + 1], P[j + 2]));
+  return v;
+}
+
+VCase gen_octree() {
+  VCase c;
+  c.S("boxclass", gen_box(c, false));
+  const bool per = vr::coin(0.4);
+  c.I("periodic", {per, per, per});
+  const Geo g = geo_of(c);
+  const int N = (int)vr::irange(2, 60);
+  gen_points(c, g, N, true);
+  const double lmin = std::min(g.L[0], std::min(g.L[1], g.L[2]));
+  std::vector<double> h;
+  for (int j = 0; j < N; ++j)
+    h.push_back(vr::coin(0.1) ? 0. : lmin * std::pow(10., vr::uni(-3., 0.)));
+  c.D("h", h);
+  const auto pts = points_of(c);
+  std::vector<double> Q, R;
+  for (int q = 0; q < 16; ++q) {
+    const int m = vr::weighted({5, 2, 2, 2});
+    for (int i = 0; i < 3; ++i) {
+      double x;
+      if (m == 0)
+        x = g.a[i] + vr::uni() * g.L[i];
+      else if (m == 1) // exactly one of the points
+        x = pts[vr::irange(0, N - 1)][i];
+      else if (m == 2) // near a box face / corner
+        x = vr::coin() ? g.a[i] : g.a[i] + g.L[i];
+      else // outside the box (only meaningful without periodicity)
+        x = g.a[i] + vr::uni(-0.5, 1.5) * g.L[i];
+      if (per || m != 3)
+        x = clamp_half_open(g, i, x);
+      Q.push_back(x);
+    }
+    R.push_back(vr::coin(0.2) ? 0. : lmin * std::pow(10., vr::uni(-3., 0.)));
+  }
+  c.D("queries", Q).D("radii", R);
+  return c;
+}
+
+LD pdist(const Geo &g, bool per, const Vec &a, const double b[3]) {
+  LD s = 0.L;
+  for (int i = 0; i < 3; ++i) {
+    LD d = std::abs((LD)a[i] - (LD)b[i]);
+    if (per)
+      d = std::min(d, (LD)g.L[i] - d);
+    s += d * d;
+  }
+  return std::sqrt(s);
+}
+
+VResult o_octree(const VCase &c) {
+  VResult r;
+  const Geo g = geo_of(c);
+  const bool per = g.per[0];
+  r.label(c.s("boxclass"));
+  r.label(c.s("pointclass"));
+  r.label(per ? "periodic" : "open");
+  std::vector<Vec> pts = points_of(c);
+  const std::vector<Vec> pts0 = pts;
+  const size_t N = pts.size();
+  std::vector<double> h = c.dv("h");
+  Octree tree(pts, g.box(), per);
+  tree.set_auxiliaries(h, Octree::max<double>);
+  for (size_t j = 0; j < N; ++j)
+    if (pts[j] != pts0[j]) {
+      r.fail(fmt("the tree moved point %zu although all points are distinct", j));
+      return r;
+    }
+  LD lo[3], hi[3];
+  for (int i = 0; i < 3; ++i) {
+    lo[i] = INFINITY;
+    hi[i] = -INFINITY;
+    for (auto &p : pts) {
+      lo[i] = std::min(lo[i], (LD)p[i]);
+      hi[i] = std::max(hi[i], (LD)p[i]);
+    }
+  }
+  const double amb = 16. * EPS * (g.scale() + g.diag());
+  bool any_outside = false;
+  const size_t nq = c.dv("radii").size();
+  for (size_t q = 0; q < nq; ++q) {
+    const double x[3] = {c.d("queries", 3 * q), c.d("queries", 3 * q + 1), c.d("queries", 3 * q + 2)};
+    const Vec ctr(x[0], x[1], x[2]);
+    const double R = c.d("radii", q);
+    bool outside_hull = false;
+    for (int i = 0; i < 3; ++i)
+      outside_hull |= (LD)x[i] < lo[i] || (LD)x[i] > hi[i];
+    if (outside_hull) {
+      any_outside = true;
+      r.nontrivial = true;
+    }
+    std::vector<LD> d(N);
+    for (size_t j = 0; j < N; ++j)
+      d[j] = pdist(g, per, pts[j], x);
+    // get_ngbs / get_ngbs_sphere
+    for (int mode = 0; mode < 2; ++mode) {
+      const double RR = mode ? R : 0.;
+      std::vector<uint_fast32_t> got = mode ? tree.get_ngbs_sphere(ctr, R) : tree.get_ngbs(ctr);
+      std::vector<int> in(N, 0);
+      for (auto j : got) {
+        if (j >= N) {
+          r.fail(fmt("query %zu: neighbour index %zu out of range", q, (size_t)j));
+          return r;
+        }
+        ++in[j];
+      }
+      for (size_t j = 0; j < N; ++j) {
+        if (in[j] > 1) {
+          r.fail(fmt("query %zu: point %zu returned %d times", q, j, in[j]));
+          return r;
+        }
+        const LD lim = (LD)h[j] + (LD)RR;
+        if (std::abs(d[j] - lim) <= amb)
+          continue; // on the rim: either answer
+        const bool exp = d[j] <= lim;
+        if (exp != (in[j] == 1)) {
+          r.fail(fmt("%s(%.17g, %.17g, %.17g%s): point %zu at distance %.17Lg with smoothing "
+                     "length %.17g is %s, brute force says %s",
+                     mode ? "get_ngbs_sphere" : "get_ngbs", x[0], x[1], x[2],
+                     mode ? fmt("; R=%.17g", R).c_str() : "", j, d[j], h[j],
+                     in[j] ? "returned" : "missing", exp ? "inside" : "outside"));
+          return r;
+        }
+      }
+    }
+    // closest neighbour
+    size_t best = 0;
+    for (size_t j = 1; j < N; ++j)
+      if (d[j] < d[best])
+        best = j;
+    LD second = INFINITY;
+    for (size_t j = 0; j < N; ++j)
+      if (j != best)
+        second = std::min(second, d[j]);
+    const size_t got = tree.get_closest_ngb(ctr);
+    if (got >= N) {
+      r.fail(fmt("get_closest_ngb returns index %zu >= %zu", got, N));
+      return r;
+    }
+    if (second - d[best] <= amb) {
+      r.label("closest-tie-skipped");
+      if (d[got] - d[best] > amb) {
+        r.fail(fmt("get_closest_ngb(%.17g, %.17g, %.17g) = %zu at distance %.17Lg, brute force "
+                   "minimum %.17Lg (point %zu)",
+                   x[0], x[1], x[2], got, d[got], d[best], best));
+        return r;
+      }
+    } else if (got != best) {
+      r.fail(fmt("get_closest_ngb(%.17g, %.17g, %.17g) = %zu at distance %.17Lg, brute force "
+                 "says %zu at distance %.17Lg",
+                 x[0], x[1], x[2], got, d[got], best, d[best]));
+      return r;
+    }
+  }
+  if (any_outside)
+    r.label("query-outside-hull");
+  if (N >= 8)
+    r.nontrivial = true;
+  return r;
+}
+
+VCase gen_pointloc() {
+  VCase c;
+  c.S("boxclass", gen_box(c, false));
+  c.I("periodic", {0, 0, 0});
+  const Geo g = geo_of(c);
+  const int N = (int)vr::irange(1, 150);
+  gen_points(c, g, N, true);
+  c.I("withbox", N == 1 ? 1 : vr::coin(0.6));
+  static const std::vector<int64_t> npc = {1, 2, 3, 5, 10, 100};
+  c.I("num_per_cell", vr::pick(npc));
+  const auto pts = points_of(c);
+  std::vector<double> Q;
+  for (int q = 0; q < 24; ++q) {
+    const int m = vr::weighted({5, 2, 2});
+    for (int i = 0; i < 3; ++i) {
+      double lo = g.a[i], hi = g.top(i);
+      if (!c.i("withbox")) { // the structure covers the hull of the points
+        lo = pts[0][i];
+        hi = pts[0][i];
+        for (auto &p : pts) {
+          lo = std::min(lo, p[i]);
+          hi = std::max(hi, p[i]);
+        }
+      }
+      double x;
+      if (m == 0)
+        x = lo + vr::uni() * (hi - lo);
+      else if (m == 1)
+        x = pts[vr::irange(0, N - 1)][i];
+      else
+        x = vr::coin() ? lo : hi;
+      if (c.i("withbox"))
+        x = clamp_half_open(g, i, x);
+      Q.push_back(x);
+    }
+  }
+  c.D("queries", Q);
+  c.I("probe_known", vr::coin(0.1));
+  return c;
+}
+
+VResult o_pointloc(const VCase &c) {
+  VResult r;
+  const Geo g = geo_of(c);
+  r.label(c.s("boxclass"));
+  r.label(c.s("pointclass"));
+  const std::vector<Vec> pts = points_of(c);
+  const size_t N = pts.size();
+  const bool withbox = c.i("withbox") != 0;
+  r.label(withbox ? "with-box" : "auto-range");
+  std::unique_ptr<PointLocations> pl;
+  if (withbox)
+    pl.reset(new PointLocations(pts, (uint_fast32_t)c.i("num_per_cell"), g.box()));
+  else
+    pl.reset(new PointLocations(pts, (uint_fast32_t)c.i("num_per_cell")));
+  const double amb = 16. * EPS * (g.scale() + g.diag());
+  const size_t nq = c.dv("queries").size() / 3;
+  const size_t ncell1d = (size_t)std::round(std::cbrt((double)(N / std::min<size_t>(N, (size_t)c.i("num_per_cell")))));
+  if (ncell1d >= 2) {
+    r.label("several-buckets");
+    r.nontrivial = true;
+  }
+  // geometry of the bucket grid as the constructor defines it
+  double ganchor[3], gsides[3];
+  for (int i = 0; i < 3; ++i) {
+    if (withbox) {
+      ganchor[i] = g.a[i];
+      gsides[i] = g.L[i] / (uint_fast32_t)ncell1d;
+    } else {
+      double mn = pts[0][i], mx = pts[0][i];
+      for (auto &p : pts) {
+        mn = std::min(mn, p[i]);
+        mx = std::max(mx, p[i]);
+      }
+      mx -= mn;
+      mn -= 0.01 * mx;
+      mx *= 1.02;
+      ganchor[i] = mn;
+      gsides[i] = mx / (uint_fast32_t)ncell1d;
+    }
+  }
+  const bool probe_known = c.i("probe_known") != 0;
+  const auto open_known = vr::split_env("VERIF_KNOWN");
+  for (size_t q = 0; q < nq; ++q) {
+    const double x[3] = {c.d("queries", 3 * q), c.d("queries", 3 * q + 1), c.d("queries", 3 * q + 2)};
+    std::vector<LD> d(N);
+    size_t best = 0;
+    for (size_t j = 0; j < N; ++j) {
+      d[j] = pdist(g, false, pts[j], x);
+      if (d[j] < d[best])
+        best = j;
+    }
+    LD second = INFINITY;
+    for (size_t j = 0; j < N; ++j)
+      if (j != best)
+        second = std::min(second, d[j]);
+    // matcher: the bucket index as the code computes it
+    std::string known;
+    for (int i = 0; i < 3; ++i) {
+      const uint_fast32_t ax = (x[i] - ganchor[i]) / gsides[i];
+      // (the query is inside the half-open box the structure was built for)
+      if (ax >= ncell1d)
+        known = KNOWN_PL_UP;
+    }
+    if (!known.empty() && !probe_known && open_known.count(known)) {
+      r.label("query-in-open-known-class-skipped");
+      continue;
+    }
+    c16::announce(known);
+    size_t got = N;
+    try {
+      got = pl->get_closest_neighbour(Vec(x[0], x[1], x[2]));
+    } catch (const std::exception &ex) {
+      c16::announce("");
+      r.fail(fmt("get_closest_neighbour(%.17g, %.17g, %.17g) throws %s (%zu points, %zu^3 buckets)",
+                 x[0], x[1], x[2], ex.what(), N, ncell1d));
+      r.known = known;
+      return r;
+    }
+    c16::announce("");
+    if (got >= N) {
+      r.fail(fmt("get_closest_neighbour returns index %zu >= %zu", got, N));
+      r.known = known;
+      return r;
+    }
+    if (second - d[best] <= amb ? d[got] - d[best] > amb : got != best) {
+      r.fail(fmt("get_closest_neighbour(%.17g, %.17g, %.17g) = %zu at distance %.17Lg, brute "
+                 "force says %zu at distance %.17Lg (%zu points, %zu^3 buckets)",
+                 x[0], x[1], x[2], got, d[got], best, d[best], N, ncell1d));
+      r.known = known;
+      return r;
+    }
+  }
+  return r;
+}
+
+VCase gen_morton() {
+  VCase c;
+  c.S("boxclass", gen_box(c));
+  const Geo g = geo_of(c);
+  std::vector<double> P;
+  for (int q = 0; q < 32; ++q)
+    for (int i = 0; i < 3; ++i) {
+      double x;
+      switch (vr::weighted({5, 2, 2})) {
+      case 0:
+        x = g.a[i] + vr::uni() * g.L[i];
+        break;
+      case 1:
+        x = g.a[i] + g.L[i] * (double)vr::irange(0, 63) / 64.;
+        break;
+      default:
+        x = vr::coin() ? g.a[i] : g.top(i);
+      }
+      P.push_back(clamp_half_open(g, i, x));
+    }
+  c.D("points", P);
+  return c;
+}
+
+VResult o_morton(const VCase &c) {
+  VResult r;
+  const Geo g = geo_of(c);
+  r.label(c.s("boxclass"));
+  MortonKeyGenerator gen(g.box());
+  const std::vector<Vec> pts = points_of(c);
+  std::vector<Vec> clean;
+  std::vector<uint64_t> keys;
+  bool any_amb = false;
+  for (auto &p : pts) {
+    uint64_t ic[3];
+    bool amb = false;
+    for (int i = 0; i < 3; ++i) {
+      const LD f = (LD)0x1fffff * ((LD)p[i] - (LD)g.a[i]) / (LD)g.L[i];
+      if (f != 0.L && std::abs(f - std::round(f)) < 1e-6L)
+        amb = true; // on a lattice line: the integer coordinate is a rounding matter
+      ic[i] = (uint64_t)std::floor((double)f);
+    }
+    if (amb) {
+      any_amb = true;
+      continue;
+    }
+    uint64_t key = 0;
+    for (int b = 20; b >= 0; --b)
+      key = (key << 3) | (((ic[0] >> b) & 1) << 2) | (((ic[1] >> b) & 1) << 1) | ((ic[2] >> b) & 1);
+    const uint64_t got = gen.get_key(p);
+    if (got != key) {
+      r.fail(fmt("get_key(%.17g, %.17g, %.17g) = %llx, bit interleave of (%llu,%llu,%llu) gives %llx",
+                 p[0], p[1], p[2], (unsigned long long)got, (unsigned long long)ic[0],
+                 (unsigned long long)ic[1], (unsigned long long)ic[2], (unsigned long long)key));
+      return r;
+    }
+    clean.push_back(p);
+    keys.push_back(key);
+  }
+  // get_keys == get_key for every element
+  const std::vector<morton_key_t> all = gen.get_keys(clean);
+  for (size_t j = 0; j < clean.size(); ++j)
+    if (all[j] != keys[j]) {
+      r.fail(fmt("get_keys()[%zu] = %llx differs from get_key = %llx", j, (unsigned long long)all[j], (unsigned long long)keys[j]));
+      return r;
+    }
+  if (any_amb)
+    r.label("on-lattice-line-skipped");
+  r.nontrivial = clean.size() >= 8;
+  return r;
+}
+
 } // namespace
 
 int main(int argc, char **argv) {
@@ -2188,5 +2652,27 @@ int main(int argc, char **argv) {
        "model. Non-trivial = (depth >= 2 and >= 2 leaf levels on the ray) or a periodic wrap on "
        "the ray or an odd block factor.",
        {{"two-leaf-levels-on-ray", 0.1}, {"periodic-wrap-on-ray", 0.05}, {"odd-block-factor", 0.2}}});
+  props.push_back(
+      {"octree", 8000, gen_octree, c16::guarded(o_octree),
+       "Octree: 2..60 distinct points (uniform / half of them in a cluster of relative width "
+       "1e-2..1e-7 / all clustered) in a box, open or periodic, smoothing length per point "
+       "10^U(-3,0) * Lmin (10% zero), 16 query centres per case (inside, exactly a point, on a "
+       "box face/corner, up to half a box outside for open boxes) with radii; get_ngbs, "
+       "get_ngbs_sphere and get_closest_ngb == brute force (minimal image when periodic); "
+       "points within 16 eps of the rim and exact distance ties excluded. Non-trivial = >= 8 "
+       "points or a query outside the hull of the points.",
+       {{"query-outside-hull", 0.3}, {"periodic", 0.2}}});
+  props.push_back(
+      {"pointloc", 8000, gen_pointloc, c16::guarded(o_pointloc),
+       "PointLocations: 1..150 distinct points, with the box or with the automatic range, "
+       "1..100 points per bucket, 24 query positions per case (inside the covered region, "
+       "exactly a point, on the boundary): get_closest_neighbour == brute force (ties "
+       "excluded). Non-trivial = more than one bucket per axis.",
+       {{"several-buckets", 0.3}}});
+  props.push_back(
+      {"morton", 4000, gen_morton, c16::guarded(o_morton),
+       "MortonKeyGenerator: 32 positions per case in the half-open box (generic, on a 1/64 "
+       "lattice, on the faces): get_key == independent interleave of floor(0x1fffff*(x-a)/L) "
+       "(positions within 1e-6 of a lattice line skipped), get_keys == get_key."});
   return vr::vmain(argc, argv, "C16", props);
 }
